@@ -253,7 +253,7 @@ func c11Gen(r *Rng, i int, tier string) any {
 	in.Threads = r.Intn(6)
 	in.Delays = fsDelays{Seed: r.U64(), Profile: []int{0, 1, 2, 3, 5}[r.Intn(5)]}
 	if in.Kind == "cursor" {
-		in.Fault = c11Fault{Type: "download", File: r.Intn(2), K: r.Intn(3)}
+		in.Fault = c11Fault{Type: "download", File: r.Intn(2), K: r.Intn(6)}
 		return in
 	}
 	sites := c11Sites(&in.Layout)
@@ -497,8 +497,13 @@ func c11Exec(raw json.RawMessage) (*Case, error) {
 				forked.WalkFunc = func(ctx context.Context, prefix string, f func(filename string) error) error {
 					return errInjOpen
 				}
-			default: // the one-block file is damaged (bad dbin header)
-				forked.SetFile(bstream.BlockFileNameWithSuffix(fb, "verif"), []byte("xbin-damaged-one-block-file"))
+			default: // the one-block file is damaged: bad dbin header, or cut exactly after its header (no block in it)
+				damaged := []byte("xbin-damaged-one-block-file")
+				if in.Fault.K%2 == 1 {
+					whole := fsBundleBytes([]fsBlk{fork})
+					damaged = append([]byte(nil), whole[:headerLen(whole)]...)
+				}
+				forked.SetFile(bstream.BlockFileNameWithSuffix(fb, "verif"), damaged)
 				wantClass = 3
 			}
 			cur := &bstream.Cursor{Step: bstream.StepNew, Block: bstream.NewBlockRef(fsIDStr(fork.ID), fork.Num),
@@ -570,6 +575,10 @@ func c11Corpus() []any {
 		c11Input{Kind: "cursor", Layout: two, Threads: 2, Fault: c11Fault{Type: "download"}},
 		c11Input{Kind: "cursor", Layout: two, Threads: 2, Fault: c11Fault{Type: "download", File: 1, K: 1}},
 		c11Input{Kind: "cursor", Layout: two, Threads: 0, Fault: c11Fault{Type: "download", File: 1, K: 2}},
+		// the one-block file of the forked cursor block is cut exactly after its dbin header (fixed: it used to decode as
+		// "no block, no error": the handler was called with a nil block, JoiningSource panicked)
+		c11Input{Kind: "cursor", Layout: two, Threads: 0, Fault: c11Fault{Type: "download", File: 0, K: 5}},
+		c11Input{Kind: "cursor", Layout: two, Threads: 2, Fault: c11Fault{Type: "download", File: 1, K: 5}},
 		c11Input{Kind: "stream", Layout: fsLayout{Bundle: 100, Start: 3, Stop: 104, Files: [][]fsBlk{chain(1, 99), chain(100, 140)}}, Threads: 2, Fault: c11Fault{Type: "open", File: 1}},
 		// the handler fails on the stop block itself: the handler's error is the cause, not "stop block reached"
 		c11Input{Kind: "stream", Layout: fsLayout{Bundle: 100, Start: 3, Stop: 7, Files: [][]fsBlk{chain(1, 99)}}, Threads: 2, Fault: c11Fault{Type: "handler", K: 4}},
